@@ -209,6 +209,9 @@ func advCallsSetup(s *rt.Sim, tier string) func() {
 		if chance("cfg.x", 1, 8) {
 			kind = 3 // NtC server: its chain-sync state machine has neither timeouts nor byte limits
 		}
+		if kind != 3 && chance("cfg.x", 1, 10) {
+			kind = 4 // DMQ client connection (local-message-submission / -notification)
+		}
 		co := connOpts{magic: 42}
 		switch kind {
 		case 0:
@@ -217,6 +220,8 @@ func advCallsSetup(s *rt.Sim, tier string) func() {
 			co.ntn, co.server = true, true
 		case 3:
 			co.server = true
+		case 4:
+			co.dmq = true
 		}
 		// application callbacks
 		csServed := 0
@@ -305,6 +310,16 @@ func advCallsSetup(s *rt.Sim, tier string) func() {
 		if co.ntn {
 			csLabel, csId = "chainsync-ntn", chainsync.ProtocolIdNtN
 		}
+		if kind == 4 {
+			// no conversation at all: the connection is set up, lives for a while and ends; what
+			// is judged is that nothing it started outlives it
+			calls = append(calls, apiCall{"dmq.idle-connection", "keepalive", specKeepAlive, 0x7ffd, func(c *ouroboros.Connection) error {
+				if c.LocalMessageSubmission() == nil || c.LocalMessageNotification() == nil {
+					return fmt.Errorf("DMQ protocols missing")
+				}
+				return nil
+			}})
+		}
 		if kind == 3 {
 			calls = append(calls, apiCall{"chainsync.server.bigblock", "chainsync-ntc", specChainSync, chainsync.ProtocolIdNtC, func(c *ouroboros.Connection) error {
 				// nothing blocks in the server application (RollForward queues the message); what is
@@ -315,7 +330,7 @@ func advCallsSetup(s *rt.Sim, tier string) func() {
 				return nil
 			}})
 		}
-		if !co.server {
+		if !co.server && !co.dmq {
 			calls = append(calls,
 				apiCall{"chainsync.GetCurrentTip", csLabel, specChainSync, csId, func(c *ouroboros.Connection) error { _, e := c.ChainSync().Client.GetCurrentTip(); return e }},
 				apiCall{"chainsync.GetAvailableBlockRange", csLabel, specChainSync, csId, func(c *ouroboros.Connection) error {
@@ -440,6 +455,9 @@ func advCallsSetup(s *rt.Sim, tier string) func() {
 		call := calls[pick("op", len(calls))]
 		resp := &advResponder{peer: peer, spec: call.spec, label: call.label, id: call.id, asServer: !co.server, state: call.spec.Init,
 			behaviour: advBehaviours[pick("op", len(advBehaviours))], deviateAt: pick("op", 3)}
+		if kind == 4 {
+			resp.passive = true
+		}
 		if stallArm {
 			if chance("cfg.x", 1, 2) {
 				resp.behaviour = "right"
